@@ -200,6 +200,113 @@ func generateMore(suite string, seed uint64, i int, r *rng, id string, g gp) *Ca
 		cfg := genCfg(r, cp{p1: []int{0, 1}, p2: []int{0}, p4: []int{1}, p5: []int{4}, trace: true, mon: true}, names)
 		cfg.Thor = []int{-1, -1, 28, 1, 100}[r.intn(5)]
 		return lay(cfg, edges)
+	case "e2e-dec": // C01: sizes and spacings that are not dyadic (decimals, thirds, tiny and huge values); no exact model
+		// comparison on these - the question is only whether every call returns
+		edges, names := genGraph(r, g)
+		cfg := genCfg(r, cp{p1: []int{0, 1}, p2: []int{0, 1}, p4: []int{0, 1, 2, 3, 4}, bk: allBK, p5: []int{0, 1, 2, 4}, virt: 1}, names)
+		dec := func(s string) string {
+			x := math.Floor(pf(s))
+			switch r.intn(6) {
+			case 0:
+				return fs(x + float64(1+r.intn(9))/10)
+			case 1:
+				return fs(x + float64(1+r.intn(99))/100)
+			case 2:
+				return fs((x + 1) / 3)
+			case 3:
+				return fs(x*1e-3 + 1e-4)
+			case 4:
+				return fs(x*1e5 + 0.7)
+			}
+			return fs(x + 0.7)
+		}
+		if cfg.NS != "" && pf(cfg.NS) != 0 {
+			cfg.NS = dec(cfg.NS)
+		}
+		if cfg.LS != "" && pf(cfg.LS) != 0 {
+			cfg.LS = dec(cfg.LS)
+		}
+		if cfg.Fixed != nil {
+			cfg.Fixed = []string{dec(cfg.Fixed[0]), dec(cfg.Fixed[1])}
+		}
+		for k, v := range cfg.Sizes {
+			cfg.Sizes[k] = []string{dec(v[0]), dec(v[1])}
+		}
+		if cfg.Fixed == nil && cfg.Sizes == nil {
+			cfg.Fixed = []string{dec("120p0"), dec("40p0")}
+		}
+		return &Case{ID: id, Op: "layout", Cfg: cfg, Edges: edges}
+	case "c11-deep", "e2e-big": // more than 64 layers (a long spine with branches, rejoining chords and pendants) or very wide layers
+		var es [][2]int
+		n := 0
+		if suite == "c11-deep" || r.chance(2, 3) {
+			L := r.rangeIn(66, 130)
+			for i := 0; i+1 < L; i++ {
+				es = append(es, [2]int{i, i + 1})
+			}
+			n = L
+			for x := r.rangeIn(0, 10); x > 0; x-- {
+				a := r.intn(L)
+				switch r.intn(3) {
+				case 0: // side chain hanging off the spine
+					prev := a
+					for y := r.rangeIn(1, 5); y > 0; y-- {
+						es = append(es, [2]int{prev, n})
+						prev = n
+						n++
+					}
+				case 1: // forward chord
+					b := r.intn(L)
+					if a > b {
+						a, b = b, a
+					}
+					if a != b {
+						es = append(es, [2]int{a, b})
+					}
+				case 2: // extra source feeding the spine
+					es = append(es, [2]int{n, a})
+					n++
+				}
+			}
+		} else { // three or four layers with 30..70 nodes each
+			layers := r.rangeIn(3, 4)
+			var prevL []int
+			for l := 0; l < layers; l++ {
+				w := r.rangeIn(30, 70)
+				var cur []int
+				for i := 0; i < w; i++ {
+					cur = append(cur, n)
+					n++
+				}
+				if l > 0 {
+					for _, c := range cur {
+						es = append(es, [2]int{prevL[r.intn(len(prevL))], c})
+						if r.chance(1, 4) {
+							es = append(es, [2]int{prevL[r.intn(len(prevL))], c})
+						}
+					}
+				}
+				prevL = cur
+			}
+		}
+		if r.chance(1, 2) {
+			pm := r.perm(len(es))
+			es2 := make([][2]int, len(es))
+			for i, j := range pm {
+				es2[i] = es[j]
+			}
+			es = es2
+		}
+		var edges [][]string
+		for _, e := range es {
+			edges = append(edges, []string{plainName(e[0]), plainName(e[1])})
+		}
+		c := cp{p1: []int{0, 1}, p2: []int{0, 1}, p4: []int{0, 1, 2, 4}, bk: allBK, p5: []int{0, 1, 2, 4}, virt: 1, trace: true, mon: true}
+		if suite == "c11-deep" {
+			c = cp{p1: []int{0, 1}, p2: []int{1}, p4: []int{1}, p5: []int{4}, trace: true, mon: true}
+		}
+		cfg := genCfg(r, c, usedNames(edges))
+		return lay(cfg, edges)
 	case "c11":
 		edges, names := genGraph(r, g)
 		cfg := genCfg(r, cp{p1: []int{0, 1}, p2: []int{1}, p4: []int{1}, p5: []int{4}, trace: true, mon: true}, names)
